@@ -129,6 +129,9 @@ pub struct BBook {
     pub names: Vec<(String, Vec<u8>)>,
     /// extra ignorable global records after BOF (type, payload)
     pub extra_globals: Vec<(u16, Vec<u8>)>,
+    /// physical order of the sheet substreams after the globals (indices into `sheets`); empty = BoundSheet8 order.
+    /// BoundSheet8.lbPlyPos points at each substream wherever it is.
+    pub substream_order: Vec<usize>,
 }
 
 pub fn bof(dt: u16) -> Vec<u8> {
@@ -191,11 +194,13 @@ pub fn workbook_stream(b: &BBook) -> Vec<u8> {
     };
     let g0 = globals(&vec![0; b.sheets.len()]);
     let subs: Vec<Vec<u8>> = b.sheets.iter().map(sheet_stream).collect();
-    let mut offs = vec![];
+    let order: Vec<usize> = if b.substream_order.is_empty() { (0..subs.len()).collect() } else { b.substream_order.clone() };
+    assert!({ let mut o = order.clone(); o.sort(); o == (0..subs.len()).collect::<Vec<_>>() }, "substream_order must be a permutation");
+    let mut offs = vec![0u32; subs.len()];
     let mut pos = g0.len() as u32;
-    for s in &subs { offs.push(pos); pos += s.len() as u32; }
+    for i in &order { offs[*i] = pos; pos += subs[*i].len() as u32; }
     let mut out = globals(&offs);
-    for s in subs { out.extend(s); }
+    for i in &order { out.extend(&subs[*i]); }
     out
 }
 
